@@ -52,7 +52,7 @@ type NodeSpec struct {
 // the world's op log) at which it strikes.
 type Fault struct {
 	AtOp  int    `json:"at_op"`
-	Kind  string `json:"kind"`            // fail | kill | eof
+	Kind  string `json:"kind"`            // fail | kill | eof | signal (Errno = SIGINT, SIGTERM, SIGHUP or SIGQUIT, delivered just before the operation)
 	Bytes int    `json:"bytes,omitempty"` // read/write ops: bytes let through first (-1: before the op)
 	Errno string `json:"errno,omitempty"` // for fail
 	// Sticky: once fired on a file write, every later write to a regular file
